@@ -60,3 +60,20 @@ func VerifC15PlaintextCache() {
 	verifrt.Assert(err == nil && m2.cachedWidth == 80 && m2.cached == ref80, "constructor-establishes-cache-invariant")
 	verifrt.Reach("end")
 }
+
+// VerifC15PlaintextCacheReal: the same lemma on the real renderer (no stub),
+// for documents with blank edge lines, over a small domain of symbolic widths.
+func VerifC15PlaintextCacheReal() {
+	text := []string{"\nalpha beta gamma", "alpha beta\n\n", "\n\nsee https://a.b/c now\n", "one two"}[verifrt.Choice("doc", 4)]
+	maxw := verifrt.Param("maxw", 12)
+	cw := verifrt.Int("cachedWidth", 1, maxw)
+	pre, _ := renderWithLinks(text, cw)
+	m := &Markup{text: text, cached: pre, cachedWidth: cw}
+	for i := 0; i < verifrt.Param("calls", 2); i++ {
+		w := verifrt.Int("w", 1, maxw)
+		got := m.Render(w)
+		ref, _ := renderWithLinks(text, w)
+		verifrt.Assert(got == ref, "render-equals-cache-free-rendering")
+	}
+	verifrt.Reach("end")
+}
